@@ -106,6 +106,30 @@ Theorem C12_tamper_rejected : forall (secret public : Type)
 Proof. exact tamper_rejected. Qed.
 Print Assumptions C12_tamper_rejected.
 
+Theorem C12_altered_signature_rejected : forall (secret public : Type)
+  (sign : secret -> bytes -> bytes) (verify : public -> bytes -> bytes -> bool) (sk : secret) (pk : public),
+  (forall m sg, verify pk m sg = true -> sg = sign sk m) ->
+  forall k o t c ttl rrset inc exp s scratch,
+    valid_abs o -> uniform o t c ttl rrset ->
+    sign_rrset k rrset inc exp = Ok (s, scratch) ->
+    forall seen sg', resolver_view o t c rrset seen ->
+      sg' <> sign sk scratch ->
+      verify_signed_data public verify pk (k_alg k) s sg' (signed_data s seen) <> Ok tt.
+Proof. exact altered_signature_rejected. Qed.
+Print Assumptions C12_altered_signature_rejected.
+
+Theorem C12_foreign_key_rejected : forall (secret public : Type)
+  (sign : secret -> bytes -> bytes) (verify : public -> bytes -> bytes -> bool) (sk : secret) (pk : public),
+  (forall pk' m, verify pk' m (sign sk m) = true -> pk' = pk) ->
+  forall k o t c ttl rrset inc exp s scratch,
+    valid_abs o -> uniform o t c ttl rrset ->
+    sign_rrset k rrset inc exp = Ok (s, scratch) ->
+    forall seen pk' dalg, resolver_view o t c rrset seen ->
+      pk' <> pk ->
+      verify_signed_data public verify pk' dalg s (sign sk scratch) (signed_data s seen) <> Ok tt.
+Proof. exact foreign_key_rejected. Qed.
+Print Assumptions C12_foreign_key_rejected.
+
 Theorem C12_key_tag_is_appendix_b : forall flags proto alg pk,
   flags < 65536 -> proto < 256 -> alg < 256 -> alg <> 1 -> wf_bytes pk ->
   len (rfc_dnskey_rdata flags proto alg pk) <= 65535 ->
